@@ -83,8 +83,6 @@ def run_history(rng, kind, ops):
             trace.append(ev)
         else:
             before = [proj[id(mem)][1] for mem in arch]
-            if not before:
-                continue
             st, res = observe(arch.truncate, o[1], "feat")
             ev = {"ev": "trunc", "size": o[1], "before": before, "after": [], "members": [], "exc": ""}
             if st == "exc":
@@ -168,7 +166,7 @@ class Hist(Part):
                 v = [rng.choice(p) for p in pools] + [rng.random() < 0.2]
                 ops.append(("add", v, rng.choice(fpool)))
                 if rng.random() < 0.05:
-                    ops.append(("trunc", rng.randint(1, 6)))
+                    ops.append(("trunc", rng.choice([0, 1, 1, 2, 3, 4, 6])))
         return run_history(rng, case["comp"], ops)
 
     def nontrivial(self, case, trace):
